@@ -240,8 +240,9 @@ class Exec:
         self.ctx.paths += npaths
         for (cname, cloc), (entered, survived) in self.ctx.__dict__.get("call_survival", {}).items():
             if entered and not survived:
+                dead = self.ctx.__dict__.get("call_dead_clause", {}).get((cname, cloc))
                 raise Unsupported(f"no path survives the assumed postcondition of {cname} at {cloc}: it is inconsistent with the "
-                                  f"caller's state (missing modifies clause?)")
+                                  f"caller's state (missing modifies clause?)" + (f"; statically false clause: {dead[:160]}" if dead else ""))
         return outcomes
 
     def assume_requires(self, contract, env):
@@ -968,6 +969,15 @@ class Exec:
             h2 = self.methods.get((base.cls, attr))
             if h2 is not None:
                 return h2(self, base, n, env, fr)
+            if base.cls == "DataArray" and isinstance(base.fields.get("attrs"), SymDict) and attr.startswith("_") is False or \
+                    (base.cls == "DataArray" and isinstance(base.fields.get("attrs"), SymDict) and attr in base.fields["attrs"].entries):
+                # xarray: da.name_of_attribute reads da.attrs[...] (AttributeError if there is no such attribute)
+                ad = base.fields["attrs"]
+                if attr in ad.entries or not ad.closed:
+                    p_ = ad.present(attr)
+                    if self.decide(p_):
+                        return self.load_subscript(ad, (attr,), n, env, fr)
+                    raise PathRaise("AttributeError", n)
             if base.cls == "Dataset" and attr in base.fields["vars"].entries and base.fields["vars"].entries[attr][0] is True:
                 return self.load_subscript(base.fields["vars"], (attr,), n, env, fr)       # xarray: ds.name is ds["name"]
             if self.abstract:
@@ -980,7 +990,7 @@ class Exec:
         if isinstance(base, Opaque):
             from .objmodels import opaque_attr
             return opaque_attr(self, base, attr)
-        if isinstance(base, (Arr, Small, SymDict, ListMap, list, dict, tuple, str, _ListMapRow)):
+        if isinstance(base, (Arr, Small, SymDict, ListMap, list, dict, tuple, str, _ListMapRow, V.Masked)):
             return BoundMethod(base, attr)
         if is_scalar(base):
             return BoundMethod(base, attr)
@@ -2113,9 +2123,28 @@ class Exec:
                         cenv2[gname] = opt_opaque("witness_" + gname)
         saved_old = self.st.old
         self.st.old = old
+        # ghost-static facts the callee proves about its result (ownership, dtype) become the ghost state of the value handed back
+        import re as _re
+        for cl in c.ensures:
+            m_ = _re.fullmatch(r"\s*(owner_is|dtype_is)\(\s*(result(?:\[\d+\])?)\s*,\s*'([^']+)'\s*\)\s*", cl)
+            if m_:
+                tgt = result
+                if m_.group(2) != "result":
+                    tgt = result[int(m_.group(2)[7:-1])] if isinstance(result, tuple) else None
+                if isinstance(tgt, (Arr, Small)):
+                    tgt.ghost["owner" if m_.group(1) == "owner_is" else "dtype"] = m_.group(3)
+        site = self.ctx.__dict__.setdefault("call_survival", {}).setdefault((name, loc_of(fr, n)), [0, 0]) \
+            if (was_feasible and self.emitting) else None
         try:
             for cl in c.ensures:
-                self.assume(self.eval_clause(cl, cenv2, result))
+                try:
+                    self.assume(self.eval_clause(cl, cenv2, result))
+                except PathEnd:
+                    # the clause is statically false in the caller's state: same vacuity as an infeasible path below
+                    if site is not None:
+                        site[0] += 1
+                        self.ctx.__dict__.setdefault("call_dead_clause", {})[(name, loc_of(fr, n))] = cl
+                    raise
         finally:
             self.st.old = saved_old
         if was_feasible and self.emitting:
